@@ -1,8 +1,11 @@
 (* C12 whole-body quantities.  Proved: the zero-moment point formula -- the returned point lies on the caller's
    plane (any point, any normal), the net wrench has no tangential moment about it, and it is the only such point.
+   Balance addon: the estimator's two points lie on the caller's ground plane, the centre of mass sits at the
+   reported height above its projection, the foot placement point at h tan(phi) along u, u perpendicular to k;
+   the per-body term of the whole-body inertia is the parallel-axis expression of the library.
    Mass, CoM, momenta and energies are decided by the L3 oracle (sums over bodies of the definitions). *)
 From Coq Require Import List.
-From RV Require Import Scalar LinAlg3 Spatial Laws ListArr ModelDef UtilDef UtilThm.
+From RV Require Import Scalar LinAlg3 Spatial Laws ListArr ModelDef JointDef UtilDef UtilThm BalDef BalThm.
 Section P.
   Context {T : Type} (O : Ops T) {FL : FieldLaws O}.
   Theorem C12_zmp_on_contact_plane (normal point n0 f : V3 T) : v3dot O normal f <> o0 O ->
@@ -16,5 +19,23 @@ Section P.
     v3cross O normal (v3sub O n0 (v3cross O z f)) = v3zero O ->
     z = zmp_point O normal point n0 f.
   Proof. exact (zmp_unique O normal point n0 f z). Qed.
+  Theorem C12_foot_placement_geometry (M : @Model T) (w : @WS T) q qd point smallw b pi4 iters w' F phi fb r0F0 :
+    let g2 := v3norm2 O (gravity M) in
+    (omul O (osqrt O g2) (osqrt O g2) = g2) -> (g2 <> o0 O) ->
+    (fpe_state O M w q qd point smallw b = (w', F)) ->
+    (fpe_solve O F pi4 iters = Some (phi, fb, r0F0)) ->
+    v3dot O (v3sub O (f_r0P0 F) point) (f_k F) = o0 O /\
+    v3dot O (v3sub O r0F0 point) (f_k F) = o0 O /\
+    v3sub O (f_r0C0 F) (f_r0P0 F) = v3scale O (f_h F) (f_k F) /\
+    v3sub O r0F0 (f_r0P0 F) = v3scale O (omul O (f_h F) (odiv O (osin O phi) (ocos O phi))) (f_u F) /\
+    v3dot O (f_u F) (f_k F) = o0 O.
+  Proof. exact (fpe_geometry O M w q qd point smallw b pi4 iters w' F phi fb r0F0). Qed.
+  Theorem C12_whole_body_inertia_term_is_parallel_axis (m : T) (c : V3 T) (Ic : M3 T) (X : ST T) (P : V3 T) :
+    m3rot O (stE X) -> m3T Ic = Ic ->
+    let d := v3sub O (v3sub O P (str X)) (m3Tv O (stE X) c) in
+    rbi_about O (st_applyT_rbi O X (rbi_from_mci O m c Ic)) P =
+    m3add O (m3mul O (m3mul O (m3T (stE X)) Ic) (stE X)) (m3scale O m (m3mul O (v3crossm O d) (m3T (v3crossm O d)))).
+  Proof. exact (rbi_about_parallel_axis O m c Ic X P). Qed.
 End P.
 Print Assumptions C12_zmp_on_contact_plane. Print Assumptions C12_zmp_no_tangential_moment. Print Assumptions C12_zmp_unique.
+Print Assumptions C12_foot_placement_geometry. Print Assumptions C12_whole_body_inertia_term_is_parallel_axis.
